@@ -27,8 +27,8 @@ for key in sorted(res):
         if os.path.exists(os.path.join(outdir, pid, extra)):
             shutil.copy(os.path.join(outdir, pid, extra), os.path.join(d, extra))
     meta = {'property': pid, 'seed': os.path.basename(d),
-            'origin': 'independent sub-agent (third wave: three changes per property at different sites, subtle ones '
-                      'preferred) given only the property text and a scratch worktree',
+            'origin': 'independent sub-agent (wave %s) given only the property text and a scratch worktree' % (
+                sys.argv[3] if len(sys.argv) > 3 else '?'),
             'confirmed': r['confirm'],
             'what_was_run': ['tools/seed_confirm.sh (scratch worktree: demo passes clean, patch applies, pytest emd/tests '
                              'all pass with the patch, demo fails with the patch)',
